@@ -345,3 +345,52 @@ T("C16", "twin-uri-urlparse-params-rejoined-statement", F, "", "", edits=[
     (F, IMPORT, "from urllib.parse import parse_qsl, urlparse"),
     (F, PARSE + '    uri = result.path\n', '    result = urlparse(uri)\n    uri = result.path\n    if result.params != b"":\n        uri = b";".join((uri, result.params))\n'),
 ])
+
+# ============================================================================================ wave 4
+# ---- R2: the pieces of a split at an explicit separator (lemmas of `len_range`: at most maxsplit + 1 pieces; at least two
+# where the separator is known to occur; exactly one where it is known not to)
+PART_KV = '        key, _, value = header.partition(b": ")\n'
+# partition spelled as a membership test + split(sep, 1) with the no-separator values in the other branch: mirrored test,
+# `maxsplit=` keyword (another spelling than benign/C16h)
+T("C16", "twin-header-not-in-split-once-branches", F, PART_KV,
+  '        if b": " not in header:\n            key, value = header, b""\n        else:\n            key, value = header.split(b": ", maxsplit=1)\n')
+# the same selected by find()
+T("C16", "twin-header-find-split-once-branches", F, PART_KV,
+  '        if header.find(b": ") != -1:\n            key, value = header.split(b": ", 1)\n        else:\n            key, value = header, b""\n')
+# head / body of the message in the same style
+T("C16", "twin-head-body-in-split-once-branches", F, '    header_data, _, body = data.partition(b"\\r\\n\\r\\n")\n',
+  '    if b"\\r\\n\\r\\n" in data:\n        header_data, body = data.split(b"\\r\\n\\r\\n", 1)\n    else:\n        header_data, body = data, b""\n')
+# conditional-expression form
+T("C16", "twin-header-split-once-ifexp-pair", F, PART_KV, '        key, value = header.split(b": ", 1) if b": " in header else (header, b"")\n')
+# EAFP form for the pieces of a header line: the failed unpacking is handled, nothing escapes
+T("C16", "twin-header-split-once-eafp", F, PART_KV,
+  '        try:\n            key, value = header.split(b": ", 1)\n        except ValueError:\n            key, value = header, b""\n')
+# mutants: the split may have another number of pieces than names
+M("C16", "header-split-once-unguarded", F, PART_KV, '        key, value = header.split(b": ", 1)\n', "C16.R2")
+M("C16", "header-split-unbounded-under-in-test", F, PART_KV,
+  '        if b": " in header:\n            key, value = header.split(b": ")\n        else:\n            key, value = header, b""\n', "C16.R2")
+M("C16", "header-split-once-under-test-for-other-separator", F, PART_KV,
+  '        if b":" in header:\n            key, value = header.split(b": ", 1)\n        else:\n            key, value = header, b""\n', "C16.R2")
+M("C16", "header-split-once-in-the-absent-branch", F, PART_KV,
+  '        if b": " not in header:\n            key, value = header.split(b": ", 1)\n        else:\n            key, value = header, b""\n', "C16.R2")
+M("C16", "header-split-twice-under-in-test", F, PART_KV,
+  '        if b": " in header:\n            key, value = header.split(b": ", 2)\n        else:\n            key, value = header, b""\n', "C16.R2")
+
+# ---- R3: the sanitising step of the request target spelled as an octet filter (interval lemma of `_octet_verdict`: a
+# condition that holds for every ASCII octet leaves an ASCII token unchanged), urlsplit result unpacked as a 5-tuple
+SANITISE = '    uri = uri.decode("ascii", errors="ignore").encode()\n'
+T("C16", "twin-uri-octet-filter-le-7f-listcomp", F, SANITISE, '    uri = bytes([c for c in uri if c <= 0x7F])\n')
+T("C16", "twin-uri-octet-filter-high-bit-clear", F, SANITISE, '    uri = bytes(b for b in uri if not b & 0x80)\n')
+T("C16", "twin-uri-octet-filter-in-range", F, SANITISE, '    seven_bit = range(128)\n    uri = bytes(b for b in uri if b in seven_bit)\n')
+T("C16", "twin-uri-octet-filter-mirrored-two-sided", F, SANITISE, '    uri = bytes(b for b in uri if 0 <= b and 128 > b)\n')
+T("C16", "twin-uri-octet-filter-urlsplit-5-tuple", F, "", "", edits=[
+    (F, URI, '    clean = bytes(o for o in uri if o < 128)\n    _scheme, _netloc, uri, query_string, _fragment = urlsplit(clean)\n'),
+    (F, 'parse_qsl(result.query.decode("ascii"), encoding="latin-1")', 'parse_qsl(query_string.decode("ascii"), encoding="latin-1")'),
+])
+# an octet filter whose condition the interval lemmas do not decide: undecided, not violated
+T("C16", "twin-uri-octet-filter-table-lookup", F, SANITISE, '    uri = bytes(b for b in uri if b in bytes(range(128)))\n')
+# mutants: the filter drops visible ASCII characters of the target
+M("C16", "uri-octet-filter-drops-lower-case", F, SANITISE, '    uri = bytes(o for o in uri if o < 0x60)\n', "C16.R3")
+M("C16", "uri-octet-filter-drops-semicolon", F, SANITISE, '    uri = bytes(o for o in uri if o != 0x3B)\n', "C16.R3")
+M("C16", "uri-octet-filter-keeps-high-half-only", F, SANITISE, '    uri = bytes(o for o in uri if o & 0x80)\n', "C16.R3")
+M("C16", "uri-octet-filter-inverted", F, SANITISE, '    uri = bytes(o for o in uri if not o < 0x80)\n', "C16.R3")
